@@ -42,7 +42,8 @@ def gen_cases(tier, seed):
                "metadata_only": rng.random() < 0.04, "maxpkt": 128}
         faults = rng.choice([None, None, 0.1, 0.25, 0.4])
         cancel = None if rng.random() < 0.75 else [rng.choice("SD"), rng.randrange(1, 12)]
-        cases.append({"t": "pair", "cfg": cfg, "faults": faults, "cancel": cancel, "seed": seed * 1_000_003 + i, "pacing": rng.choice([None, None, {"src_calls": 3}, {"src_calls": 6}, {"dst_calls": 3}, {"src_calls": 2, "dst_calls": 2}, {"dst_idle": 2}, {"src_idle": 2, "dst_calls": 2}])})
+        reset_at = None if rng.random() < 0.9 else [rng.choice("SD"), rng.randrange(1, 12)]  # the user calls reset() in the middle of the transfer
+        cases.append({"t": "pair", "cfg": cfg, "faults": faults, "cancel": cancel, "seed": seed * 1_000_003 + i, "reset_at": reset_at, "pacing": rng.choice([None, None, {"src_calls": 3}, {"src_calls": 6}, {"dst_calls": 3}, {"src_calls": 2, "dst_calls": 2}, {"dst_idle": 2}, {"src_idle": 2, "dst_calls": 2}])})
     # two users of one process, each with an in-memory filestore of its own, whose (virtual) path names, sizes and checksum types are the
     # same while the contents differ: what one handler reads must come from its own user's filestore
     for j in range(150 if tier == "quick" else 3000):
@@ -70,7 +71,9 @@ def one_run(case, fs):
     actions = {}
     if case["cancel"]:
         actions[case["cancel"][1]] = [("cancel", case["cancel"][0])]
-    r = Runner(w, plan=plan, max_expiries=30, max_rounds=2500, actions=actions, pacing=case.get("pacing"))
+    if case.get("reset_at"):
+        actions.setdefault(case["reset_at"][1], []).append(("reset", case["reset_at"][0]))
+    r = Runner(w, plan=plan, max_expiries=30 if not case.get("reset_at") else 6, max_rounds=2500, actions=actions, pacing=case.get("pacing"))
     host_before = w.host_tree()
     if fs != "native":
         audit.arm([w.sandbox])
@@ -161,6 +164,8 @@ def run_pair(case):
         obs["unrelated_host_accesses_during_api_calls"] = audit.other_accesses
         for op in {e["op"] for e in wm.log.events if e["kind"] == "fs"}:
             obs["op_" + op] = 1
+        if any(e["kind"] == "action" and e.get("what") == "reset" for e in wm.log.events):
+            obs["runs_with_reset_in_the_middle"] = 1
         if case["cancel"] and any(e["kind"] == "action" and e["res"] is True for e in wm.log.events):
             obs["cancelled_runs"] = 1
         if any(e["kind"] == "tx" and e["side"] == "S" and e["d"].get("kind") == "EOF" and e["d"].get("cond") == "CANCEL_REQUEST_RECEIVED" for e in wm.log.events):
@@ -331,6 +336,6 @@ def finalize(ctx):
     return [], inc
 
 
-REQUIRED = {"two_user_runs_equal_to_solo": 100, "traces_equal_to_native": 500, "filestore_operations_in_memory_run": 10000, "cancel_time_checksums": 50, "faulty_runs": 300, "runs_with_retransmission": 100,
+REQUIRED = {"runs_with_reset_in_the_middle": 100, "two_user_runs_equal_to_solo": 100, "traces_equal_to_native": 500, "filestore_operations_in_memory_run": 10000, "cancel_time_checksums": 50, "faulty_runs": 300, "runs_with_retransmission": 100,
             "op_read_data": 1, "op_write_data": 1, "op_calculate_checksum": 1, "op_file_size": 1, "op_file_exists": 1, "op_create_file": 1, "op_truncate_file": 1,
             "op_delete_file": 1, "op_is_directory": 1, "strace_transfers": {"quick": 0, "thorough": 10}}
